@@ -74,13 +74,13 @@ func families() []string {
 		json.Unmarshal([]byte(f), &r)
 		return r
 	}
-	return []string{"syntax", "esc", "f1", "f2", "f3", "f4", "f5", "f6", "strm", "hist", "xlate"}
+	return []string{"syntax", "esc", "f1", "f2", "f3", "f4", "f5", "f6", "strm", "bytes", "hist", "xlate", "judge"}
 }
 
 func genFamilies() []string {
 	var r []string
 	for _, f := range families() {
-		if f != "xlate" && f != "hist" {
+		if f != "xlate" && f != "hist" && f != "judge" {
 			r = append(r, f)
 		}
 	}
@@ -294,6 +294,20 @@ func Check(c *core.Ctx) (map[string]any, []string, error) {
 		}
 		cov["binding_selftest"] = map[string]any{"mutation": "harness adapter: RegExp.prototype.exec forgets the last capture",
 			"cases_sampled": n, "cases_rejected": rej}
+	}
+	if has(fams, "judge") {
+		nj := 4000
+		if c.Thorough() {
+			nj = 60000
+		}
+		jc, err := judge(c, nj)
+		if err != nil {
+			return nil, nil, err
+		}
+		cov["judge_direction"] = jc
+		if v, ok := cov["traces_validated_against_impl"].(int64); ok {
+			cov["traces_validated_against_impl"] = v + int64(nj)
+		}
 	}
 	if has(fams, "xlate") {
 		tr, err := translate(c)
